@@ -143,8 +143,8 @@ func runFamCase(w *cw.Writer, fc famCase, kind string) error {
 	}
 	// gates
 	var gmu sync.Mutex
-	respHold := map[int]int{}      // tag -> number of loads after which the request is held (-1 none)
-	respLoads := map[int]int{}     // tag -> loads so far
+	respHold := map[int]int{}  // tag -> number of loads after which the request is held (-1 none)
+	respLoads := map[int]int{} // tag -> loads so far
 	respAt := map[int]chan struct{}{1: make(chan struct{}, 1), 2: make(chan struct{}, 1), 3: make(chan struct{}, 1)}
 	respRel := map[int]chan struct{}{1: make(chan struct{}), 2: make(chan struct{}), 3: make(chan struct{})}
 	var relOnce [4]sync.Once
@@ -185,7 +185,10 @@ func runFamCase(w *cw.Writer, fc famCase, kind string) error {
 			return wr, commit, err
 		}
 		return wr, func(l ipld.Link) error {
-			if commitHoldLink != "" && l.String() == commitHoldLink {
+			gmu.Lock()
+			hold := commitHoldLink
+			gmu.Unlock()
+			if hold != "" && l.String() == hold {
 				select {
 				case commitAt <- struct{}{}:
 				default:
@@ -236,6 +239,16 @@ func runFamCase(w *cw.Writer, fc famCase, kind string) error {
 			case finalSeen <- struct{}{}:
 			default:
 			}
+		}
+	})
+	pauseRoot := cid.Undef
+	pausedFired := false
+	req.RegisterIncomingBlockHook(func(p peer.ID, rd graphsync.ResponseData, b graphsync.BlockData, ha graphsync.IncomingBlockHookActions) {
+		gmu.Lock()
+		defer gmu.Unlock()
+		if pauseRoot.Defined() && !pausedFired && ids[rd.RequestID()].Equals(pauseRoot) && b.Index() == 1 {
+			pausedFired = true
+			ha.PauseRequest()
 		}
 	})
 	ctx, cancel := context.WithTimeout(world.Ctx, 25*time.Second)
@@ -293,7 +306,9 @@ func runFamCase(w *cw.Writer, fc famCase, kind string) error {
 			respHold[3] = len(st3) - 1 // the default-scope request is held before its last load
 		}
 		gmu.Unlock()
+		gmu.Lock()
 		commitHoldLink = dagLink(d.Blocks[n1]).String() // and stores nothing meanwhile
+		gmu.Unlock()
 		cv := start(ctx, vroot, tbv, keyExt("scope-b"))
 		wait(respAt[2])
 		c1 := start(ctx, 0, newTables(), keyExt("scope-b"))
@@ -313,14 +328,36 @@ func runFamCase(w *cw.Writer, fc famCase, kind string) error {
 	case "cancel":
 		setTag(0, 1)
 		setTag(vroot, 2)
+		gmu.Lock()
 		commitHoldLink = dagLink(d.Blocks[0]).String()
 		watchRoot = d.Blocks[0].Cid
+		pauseRoot = d.Blocks[0].Cid
+		gmu.Unlock()
 		actx, acancel := context.WithCancel(ctx)
 		ca := start(actx, 0, newTables())
 		wait(commitAt)  // request A holds its root; the rest of its response is queued in its loader ...
 		wait(finalSeen) // ... completely: its final status has been processed
-		acancel()
-		releaseCommit()
+		releaseCommit() // A takes its root, its block hook pauses it: the rest stays queued
+		var aid graphsync.RequestID
+		deadline := time.Now().Add(10 * time.Second)
+		for {
+			gmu.Lock()
+			for id, root := range ids {
+				if root.Equals(d.Blocks[0].Cid) {
+					aid = id
+				}
+			}
+			gmu.Unlock()
+			st := req.(*gsimpl.GraphSync).PeerState(world.Nodes[1].ID()).OutgoingState.RequestStates[aid]
+			if st == graphsync.Paused || time.Now().After(deadline) {
+				break
+			}
+			select {
+			case <-time.After(200 * time.Microsecond):
+			case <-ctx.Done():
+			}
+		}
+		acancel() // cancelled while parked: its loader is cleaned up with the queued items
 		<-ca
 		victim = (<-start(ctx, vroot, tbv)).o
 	}
